@@ -102,7 +102,10 @@ func harnessFn(name string) externalFn {
 			self := s.cur
 			s.yieldSeq++
 			self.yielding, self.yieldSeq = true, s.yieldSeq
-			defer func() { self.yielding = false }()
+			// verifSettle waits for quiescence: it also lets goroutines that merely yielded
+			// (modelled latency) finish first
+			self.settling = name == "verifSettle"
+			defer func() { self.yielding, self.settling = false, false }()
 			fr.park(func() bool {
 				if !started {
 					started = true
@@ -113,7 +116,11 @@ func harnessFn(name string) externalFn {
 						continue
 					}
 					if g.yielding {
-						if g.yieldSeq < self.yieldSeq {
+						switch {
+						case self.settling && !g.settling:
+							return false
+						case !self.settling && g.settling:
+						case g.yieldSeq < self.yieldSeq:
 							return false
 						}
 						continue
